@@ -27,6 +27,9 @@ import (
 //             +10: the response of the request holding it arrives after the client-side deadline
 //   end    := 0 arrivals pause, then Shutdown | 1 Shutdown right after the last op | 2 like 1, and the scripted
 //             Elasticsearch holds every bulk request until Shutdown has returned (requests in flight; no pauses in ops)
+//             | 3 every bulk request is HELD while the ops run (a pause of arrivals lasts until the timer-flushed batch
+//             has reached the scripted service, not until it is answered), then arrivals pause, all requests are
+//             released, quiescence, Shutdown.  For the model this is a clean end (0): its batches are values.
 // obs := ((unreliable timeout) answers calls highwater answered_at_shutdown)
 //   answered_at_shutdown := end 2: ids (op order) of the events that had an answer when Shutdown returned; else ()
 //   answers := ((id (code ...)) ...) per op, codes sorted;  code := (0) success, same event | (1 send etype) ES_INDEX_ERROR
@@ -220,7 +223,7 @@ func runEsOnce(in sx.Tree) esRun {
 	W := time.Duration(waitMs) * time.Millisecond
 	w := &esWorld{script: map[int64][]int64{}, sends: map[int64]int64{}, answers: map[int64][]sx.Tree{}}
 	end := in.At(3).Int()
-	if end == 2 {
+	if end == 2 || end == 3 {
 		w.gate = make(chan struct{})
 	}
 	lates, wholes := 0, 0
@@ -284,6 +287,24 @@ func runEsOnce(in sx.Tree) esRun {
 			time.Sleep(200 * time.Microsecond)
 		}
 	}
+	// held scenarios: a pause of arrivals waits until every batch flushed so far has reached the scripted service
+	expectedCalls := 0
+	heldPause := func() {
+		deadline := time.Now().Add(budget)
+		for {
+			w.mu.Lock()
+			n := len(w.calls)
+			w.mu.Unlock()
+			if n >= expectedCalls {
+				return
+			}
+			if time.Now().After(deadline) {
+				res.timeout = true
+				return
+			}
+			time.Sleep(200 * time.Microsecond)
+		}
+	}
 	order := []int64{}
 	var prevCall time.Time
 	pending := 0
@@ -337,17 +358,30 @@ func runEsOnce(in sx.Tree) esRun {
 				pending++
 				if int64(pending) == batchSize {
 					pending = 0
+					expectedCalls++
 				}
 			}
 		case 2:
-			if end != 2 {
+			if pending > 0 {
+				expectedCalls++
+			}
+			if end == 3 {
+				heldPause()
+			} else if end != 2 {
 				pause()
 			}
 			pending = 0
 		}
 	}
 	atShutdown := []sx.Tree{}
-	if end == 0 {
+	if end == 3 {
+		if pending > 0 {
+			expectedCalls++
+		}
+		heldPause()
+		close(w.gate) // release every held request
+	}
+	if end == 0 || end == 3 {
 		pause()
 		_ = e.Shutdown()
 	} else {
@@ -423,6 +457,9 @@ func GenEs(r *sx.Rng, idx int) sx.Tree {
 			end = 2
 		}
 	}
+	if idx%11 == 4 {
+		return genHeld(r)
+	}
 	nops := int(r.Range(0, 12))
 	if r.Chance(10) {
 		nops = int(r.Range(12, 24))
@@ -474,4 +511,32 @@ func GenEs(r *sx.Rng, idx int) sx.Tree {
 		}
 	}
 	return sx.T(sx.Ints(batchSize, maxRetries, workers, wait), sx.T(ops...), sx.T(script...), sx.L(end))
+}
+
+// genHeld: timer flushes of partial batches while the responses of earlier bulk requests are held, more arrivals
+// meanwhile, then release.  Enough workers for every batch to reach the scripted service at once.
+func genHeld(r *sx.Rng) sx.Tree {
+	batchSize := r.Range(2, 5)
+	maxRetries := r.Range(1, 2)
+	ops := []sx.Tree{}
+	script := []sx.Tree{}
+	id := int64(0)
+	rounds := int(r.Range(2, 4))
+	for k := 0; k < rounds; k++ {
+		n := int(r.Range(1, batchSize-1)) // a partial batch
+		if r.Chance(20) {
+			n = int(r.Range(batchSize, batchSize+2)) // a size flush, possibly with a partial remainder
+		}
+		for j := 0; j < n; j++ {
+			ops = append(ops, sx.Ints(0, id, r.Range(0, 2), int64(r.Intn(2)), r.Range(0, 99)))
+			if r.Chance(30) {
+				script = append(script, sx.T(sx.L(id), sx.Ints(sx.Pick(r, int64(oRetry), int64(oMapping)))))
+			}
+			id++
+		}
+		if k < rounds-1 {
+			ops = append(ops, sx.Ints(2))
+		}
+	}
+	return sx.T(sx.Ints(batchSize, maxRetries, 8, 40), sx.T(ops...), sx.T(script...), sx.L(3))
 }
